@@ -77,6 +77,8 @@ class Rec:
         except allow:
             raise
         except Exception as e:  # noqa
+            if _resource_error(e):
+                raise HarnessError("resource error while running the code under test: %s" % str(e)[:200])
             self.fail("raises:%s@%s" % (type(e).__name__, _frame_of(e)),
                       "%s raised %s: %s" % (what, type(e).__name__, str(e)[:500]))
             raise CaseAbort()
@@ -136,6 +138,12 @@ def abbreviate(x, maxlen=14, depth=0):
     return x
 
 
+def _resource_error(e):
+    """memory / allocator / OS resource trouble is the machine's, never the code under test's: a harness error (exit 2)"""
+    m = str(e).lower()
+    return isinstance(e, (MemoryError, OSError)) or any(k in m for k in ("can't allocate", "cannot allocate", "out of memory", "not enough memory", "too many open files"))
+
+
 def eval_case(sub, case):
     rec = Rec()
     try:
@@ -149,7 +157,7 @@ def eval_case(sub, case):
         # preparing / post-processing a case with valid inputs (e.g. building arguments with pypose ops): on the unchanged tree
         # that never happens (calibrated), on a modified tree it means pypose broke on a valid call.
         fr = _frame_of(e)
-        if fr == "ext":
+        if fr == "ext" or _resource_error(e):
             raise
         rec.fail("raises:%s@%s" % (type(e).__name__, fr), "pypose raised %s on a valid call made by the harness: %s" % (type(e).__name__, str(e)[:400]))
     return rec
